@@ -14,6 +14,8 @@ import (
 
 type propFunc func(c *Check)
 
+var verboseObs bool
+
 var properties = map[string]propFunc{}
 
 func register(id string, f propFunc) { properties[id] = f }
@@ -31,8 +33,10 @@ func main() {
 		audit   = flag.Bool("audit", false, "run the rule-liveness audit for -property (or all)")
 		listF   = flag.Bool("list-funcs", false, "list function keys")
 		goarch  = flag.String("goarch", "", "GOARCH for file selection")
+		verbose = flag.Bool("v", false, "print every obligation")
 	)
 	flag.Parse()
+	verboseObs = *verbose
 	started := time.Now()
 	if *verif == "" {
 		exe, _ := os.Executable()
@@ -188,6 +192,11 @@ func runProperty(repo, verif, prop, tier string, seed int64, ov map[string][]byt
 		}
 		for _, o := range keep {
 			fmt.Printf("replay: %s %s at %s: %s — %s\n", o.Rule, o.Construct, o.Pos, o.Status, o.How)
+		}
+	}
+	if verboseObs {
+		for _, o := range c.Obs {
+			fmt.Printf("  [%s] %s %s at %s: %s\n", o.Status, o.Rule, o.Construct, o.Pos, o.How)
 		}
 	}
 	return c.Finish(verif, started, !noEv)
